@@ -460,3 +460,157 @@ func (p Path) Feasible() bool {
 	}
 	return true
 }
+
+// PathsToInstr enumerates the paths from the entry to instruction in on which
+// each block occurs at most maxVisits times (the last block is in's).
+func PathsToInstr(fn *ssa.Function, in ssa.Instruction, maxVisits, maxPaths int) (paths []Path, ok bool) {
+	all, ok := EnumPathsUntil(fn, in.Block(), maxVisits, maxPaths)
+	return all, ok
+}
+
+// EnumPathsUntil enumerates entry→b paths (ending at the first arrival at b
+// for each prefix; b itself is not continued through), each block at most
+// maxVisits times.
+func EnumPathsUntil(fn *ssa.Function, target *ssa.BasicBlock, maxVisits, maxPaths int) (paths []Path, ok bool) {
+	if len(fn.Blocks) == 0 {
+		return nil, true
+	}
+	ok = true
+	visits := map[*ssa.BasicBlock]int{}
+	var cur []*ssa.BasicBlock
+	var rec func(b *ssa.BasicBlock)
+	rec = func(b *ssa.BasicBlock) {
+		if !ok || visits[b] >= maxVisits {
+			return
+		}
+		visits[b]++
+		cur = append(cur, b)
+		if b == target {
+			paths = append(paths, Path{Blocks: append([]*ssa.BasicBlock{}, cur...)})
+			if len(paths) > maxPaths {
+				ok = false
+			}
+		} else {
+			for _, s := range b.Succs {
+				rec(s)
+			}
+		}
+		cur = cur[:len(cur)-1]
+		visits[b]--
+	}
+	rec(fn.Blocks[0])
+	return paths, ok
+}
+
+// evalInt evaluates v to an integer constant at position upto of the path
+// (constants, phis resolved by the path, + and - of such).
+func (p Path) evalInt(v ssa.Value, upto, depth int) (int64, bool) {
+	if depth > 8 {
+		return 0, false
+	}
+	switch x := v.(type) {
+	case *ssa.Const:
+		return ConstInt(x)
+	case *ssa.Phi:
+		// the phi must have been (re)computed at its last occurrence at or before upto
+		for i := upto; i >= 1; i-- {
+			if p.Blocks[i] == x.Block() {
+				prev := p.Blocks[i-1]
+				for j, pr := range x.Block().Preds {
+					if pr == prev {
+						return p.evalInt(x.Edges[j], i-1, depth+1)
+					}
+				}
+				return 0, false
+			}
+		}
+		return 0, false
+	case *ssa.BinOp:
+		if x.Op != token.ADD && x.Op != token.SUB {
+			return 0, false
+		}
+		// the operation is evaluated in its own block: position of that block
+		pos := -1
+		for i := upto; i >= 0; i-- {
+			if p.Blocks[i] == x.Block() {
+				pos = i
+				break
+			}
+		}
+		if pos < 0 {
+			return 0, false
+		}
+		a, ok1 := p.evalInt(x.X, pos, depth+1)
+		b, ok2 := p.evalInt(x.Y, pos, depth+1)
+		if !ok1 || !ok2 {
+			return 0, false
+		}
+		if x.Op == token.ADD {
+			return a + b, true
+		}
+		return a - b, true
+	case *ssa.Call:
+		// len of an array value
+		if bi, ok := x.Call.Value.(*ssa.Builtin); ok && bi.Name() == "len" && len(x.Call.Args) == 1 {
+			t := x.Call.Args[0].Type()
+			if pt, isP := t.Underlying().(*types.Pointer); isP {
+				t = pt.Elem()
+			}
+			if at, isA := t.Underlying().(*types.Array); isA {
+				return at.Len(), true
+			}
+		}
+	}
+	return 0, false
+}
+
+// ConstFeasible rejects a path that takes a branch contradicting an integer
+// comparison both sides of which are constants on that path (the exit edge
+// of `for i := range [2]T{...}` before its first iteration, for instance).
+func (p Path) ConstFeasible() bool {
+	for i := 0; i+1 < len(p.Blocks); i++ {
+		b := p.Blocks[i]
+		ifi, ok := b.Instrs[len(b.Instrs)-1].(*ssa.If)
+		if !ok || b.Succs[0] == b.Succs[1] {
+			continue
+		}
+		cmp, ok := ifi.Cond.(*ssa.BinOp)
+		if !ok {
+			continue
+		}
+		x, ok1 := p.evalInt(cmp.X, i, 0)
+		y, ok2 := p.evalInt(cmp.Y, i, 0)
+		if !ok1 || !ok2 {
+			continue
+		}
+		var truth bool
+		switch cmp.Op {
+		case token.LSS:
+			truth = x < y
+		case token.LEQ:
+			truth = x <= y
+		case token.GTR:
+			truth = x > y
+		case token.GEQ:
+			truth = x >= y
+		case token.EQL:
+			truth = x == y
+		case token.NEQ:
+			truth = x != y
+		default:
+			continue
+		}
+		if (p.Blocks[i+1] == b.Succs[0]) != truth {
+			return false
+		}
+	}
+	return true
+}
+
+// ResolveAt is Resolve for a value used at position upto of the path.
+func (p Path) ResolveAt(v ssa.Value, upto int) ssa.Value {
+	if upto < 0 || upto >= len(p.Blocks) {
+		return p.Resolve(v)
+	}
+	return Path{Blocks: p.Blocks[:upto+1]}.Resolve(v)
+}
